@@ -48,9 +48,10 @@ def _registry(kind: str, which: str = 'base'):
     return reg
 
 
-def get_app(integration: str, status: str, base: str, codec: str = 'default', prefix_style: str = 'plain'):
+def get_app(integration: str, status: str, base: str, codec: str = 'default', prefix_style: str = 'plain', nested: bool = False):
     """returns (post(path_kind, body, content_type) -> (status, content_type, body bytes), dispatcher_for(path_kind))"""
-    key = (integration, status, base, codec, prefix_style, os.getpid())
+    # nested: the extra endpoint lives on an aiohttp sub-application / a flask blueprint (documented add_endpoint arguments)
+    key = (integration, status, base, codec, prefix_style, nested, os.getpid())
     # the extra endpoint is registered as '/sub' or as '/sub/' (both are documented to serve <base>/sub)
     reg_prefix = PREFIX + ('/' if prefix_style == 'trailing-slash' else '')
     if key in _APPS:
@@ -65,7 +66,7 @@ def get_app(integration: str, status: str, base: str, codec: str = 'default', pr
         from pjrpc.server.integration import aiohttp as integ
         rpc = integ.Application(base, **kw)
         rpc.dispatcher.add_methods(_registry('async'))
-        sub = rpc.add_endpoint(reg_prefix, **ckw)
+        sub = rpc.add_endpoint(reg_prefix, **({'subapp': web.Application()} if nested else {}), **ckw)
         sub.add_methods(_registry('async', 'sub'))
 
         async def start():
@@ -93,7 +94,7 @@ def get_app(integration: str, status: str, base: str, codec: str = 'default', pr
         app = flask.Flask(f'c18_{status}_{len(_APPS)}')
         rpc = integ.JsonRPC(base or '/', **kw)
         rpc.dispatcher.add_methods(_registry('sync'))
-        sub = rpc.add_endpoint(reg_prefix, **ckw)
+        sub = rpc.add_endpoint(reg_prefix, **({'blueprint': flask.Blueprint(f'bp_{len(_APPS)}', __name__)} if nested else {}), **ckw)
         sub.add_methods(_registry('sync', 'sub'))
         rpc.init_app(app)
         client = app.test_client()
